@@ -110,12 +110,12 @@ class CliView:
             tmpl = None
             dts = []
             if f["name"] == "write_fmt" and len(t["args"]) > 1:
-                tp = common.template_of(b, t["args"][1])
+                tp = common.template_of_s(self.sup, n, t["args"][1])
                 if tp:
                     tmpl = tp[1]
-                tr = trace(b, t["args"][1])
-                if tr.origin and tr.origin[0] == "call" and len(tr.origin[2]["args"]) > 1:
-                    dts = _display_types(b, tr.origin[2]["args"][1])
+                    ob = self.sup.body_of(tp[2])
+                    if len(tp[3]["args"]) > 1:
+                        dts = _display_types(ob, tp[3]["args"][1])
             out.append((n, st, tmpl, dts))
         self._writes = out
         return out
